@@ -344,6 +344,7 @@ def mon_c02(t):
     bad = []
     fetched = {}
     ds = delseen_steps(t)
+    e3 = e3_ccs(t)
     for k, node, stale in sync_ops(t):
         for e in t.fx[k]:
             if e["kind"] != "patch":
@@ -366,7 +367,9 @@ def mon_c02(t):
                 before = [en for en in (t.snap[k - 1] or []) if en["name"] == nm]
                 # eligible: mapped, not marked terminating, and -- whatever the controller's own mark says -- its deletion request
                 # has not been processed yet
-                live = bool(before) and not all(en["term"] for en in before) and nm not in ds[k]
+                # (a ClusterCIDR mapped again by a stale item that was in flight while its key was processed from the queue -- a
+                # schedule no work queue produces, E3 -- is not held against the controller, as in the other monitors)
+                live = bool(before) and not all(en["term"] for en in before) and (nm not in ds[k] or nm in e3)
                 if shape and blocks and selok and live:
                     ok_any = nm
                     break
@@ -764,6 +767,7 @@ def mon_c06(t):
     removed = set()
     fetched = {}
     served = {}      # node -> (ClusterCIDR name, CIDRs, incarnation): who the controller itself took the node's blocks from
+    e3 = e3_ccs(t)   # ClusterCIDR keys touched by a schedule no work queue produces (an item in flight while its key is processed)
     inc = 0
     svc = []         # the service ranges of the current incarnation
     for k, op in enumerate(t.ops):
@@ -844,7 +848,7 @@ def mon_c06(t):
                 ent = entry_of_patch(t.snap[k], e["node"], e["cidrs"])
                 if ent is not None and e["node"] in ent["assoc"]:
                     served[e["node"]] = (ent["name"], e["cidrs"], inc)
-                if ent is not None and ent["name"] in delseen:
+                if ent is not None and ent["name"] in delseen and ent["name"] not in e3:
                     bad.append({"step": k, "clause": "allocation from a ClusterCIDR after its deletion request was processed",
                                 "detail": "%s served from %s" % (e["node"], ent["name"]), "cls": "allocated-after-deletion-processed"})
         if proc is not None and proc["deleting"]:
